@@ -420,7 +420,7 @@ class ParJob:
                 if hang:
                     break
                 sp = os.path.join(wd, "api_%s_%d.json" % (fmt, k))
-                sd = {"fmt": fmt, "n": n, "apis": ["parallel", "parallel_init", "read_parallel"], "faults": faults,
+                sd = {"fmt": fmt, "n": n, "apis": ["parallel", "parallel_init", "read_parallel", "records"], "faults": faults,
                       "gen": {"maxrec": 9, "maxfield": 4, "damage": 25 if k == 0 else 40}}
                 if k == 2:
                     sd.update({"focus": "recinit", "gen": {"maxrec": 12, "maxfield": 3, "damage": 0}})
